@@ -15,10 +15,12 @@ macro_rules! with_property {
             "C10" => Some($f::<$crate::props::c10::C10>($($arg),*)),
             "C13" => Some($f::<$crate::props::c13::C13>($($arg),*)),
             "C14" => Some($f::<$crate::props::c14::C14>($($arg),*)),
+            "C15" => Some($f::<$crate::props::c15::C15>($($arg),*)),
+            "C16" => Some($f::<$crate::props::c16::C16>($($arg),*)),
             "C20" => Some($f::<$crate::props::c20::C20>($($arg),*)),
             _ => None,
         }
     };
 }
 
-pub const ALL_IDS: &[&str] = &["C01", "C02", "C03", "C04", "C10", "C13", "C14", "C20"];
+pub const ALL_IDS: &[&str] = &["C01", "C02", "C03", "C04", "C10", "C13", "C14", "C15", "C16", "C20"];
